@@ -60,6 +60,8 @@ class SimTlsSocket:
 
     def __init__(self, sock, ctx, server_side, server_hostname):
         self._sock = sock
+        # from now on every octet of this connection has to go through the TLS layer
+        sock._tls_owner = self
         self._ctx = ctx
         self.server_side = server_side
         self.server_hostname = server_hostname
@@ -124,7 +126,11 @@ class SimTlsSocket:
         self._sock.setblocking(flag)
 
     def send(self, data, flags=0):
-        return self._sock.send(data, flags)
+        self._sock._tls_passthrough = True
+        try:
+            return self._sock.send(data, flags)
+        finally:
+            self._sock._tls_passthrough = False
 
     def recv(self, size, flags=0):
         try:
